@@ -14,7 +14,7 @@ class C05(FloCheck):
             "conditional aux; empty when stopped or aborted) and with the reference interpreter; non-trivial = a nested outline "
             "of depth >= 2 was active; distinct = digest of per-run (status, active outline)")
     assumptions = ["direct invariant computed from the AST; the reference interpreter is a second opinion"]
-    directed_files = ("flo-overlapping-suspensions",)
+    directed_files = ("flo-overlapping-suspensions", "flo-cond-aux-ended-from-outside-not-restarted")
     required_probes = ["nested", "cut-at-conditional-aux", "under-override", "stopped-empty", "forced-reentry-of-active-frame-while-suspended"]
 
     def relevant(self, kind):
